@@ -92,6 +92,32 @@ pca_col!(c14_pca_col_n3, 3, 7, 1e-5);
 // @vp name=c14_pca_col_n4 prop=C14 tier=thorough t=3600 fns=PCA::fit,PCA::transform,svd_mut,column_mean,matmul size=n=4,p=1 dom=lattice(-4..4),non-constant,f32 stubs=traps,no_format,hyp32
 pca_col!(c14_pca_col_n4, 4, 8, 1e-5);
 
+// correlation mode with one column (covariance / EVD path on a 1x1 matrix): the projection is +-1/sd, the transformed training
+// data are the z-scores +-(x - mean)/sd and have zero mean
+// @vp name=c14_pca_col_n2_correlation prop=C14 tier=quick t=480 fns=PCA::fit,PCA::transform,evd size=n=2,p=1 dom=lattice(-4..4),non-constant,correlation-matrix,f32 stubs=traps,no_format,hyp32
+pca_proof! {
+    #[cfg_attr(kani, kani::unwind(6))]
+    fn c14_pca_col_n2_correlation() {
+        let (a, af) = lat32(-4, 4);
+        let (b, bf) = lat32(-4, 4);
+        kani::assume(a != b);
+        let xm = DenseMatrix::from_array(2, 1, &[af, bf]);
+        let p = match PCA::fit(&xm, PCAParameters::default().with_n_components(1).with_use_correlation_matrix(true)) {
+            Ok(p) => p,
+            Err(_) => vp_fail!("C14:pca-fit-failed"),
+        };
+        let t = match p.transform(&xm) {
+            Ok(t) => t,
+            Err(_) => vp_fail!("C14:pca-transform-failed"),
+        };
+        // two points: z-scores are +1 and -1 (population standard deviation |a-b|/2)
+        vp_assert!(t.shape() == (2, 1), "C14:pca-transform-shape");
+        vp_assert!((t.get(0, 0).abs() - 1.0).abs() <= 1e-4 && (t.get(1, 0).abs() - 1.0).abs() <= 1e-4, "C14:pca-correlation-scores-are-z-scores");
+        vp_assert!((t.get(0, 0) + t.get(1, 0)).abs() <= 1e-4, "C14:pca-transformed-training-data-has-zero-mean");
+        vp_reached!();
+    }
+}
+
 // invalid settings are errors: more components than columns; transform of a matrix with the wrong number of columns
 // @vp name=c14_pca_errors prop=C14 tier=quick t=480 fns=PCA::fit,PCA::transform size=2x1 dom=lattice stubs=no_format,hyp32
 #[cfg_attr(kani, kani::proof)]
